@@ -41,3 +41,20 @@ package failsafegrpc
 //@   ensures [C18.grpc.server.passthrough] ncalls(executor.GetWithExecution) == 1 && result_1 == reti(executor.GetWithExecution, 1, 1)
 //@   havoc
 //@   modifies calls(executor.GetWithExecution)
+
+// which errors are retried: only errors carrying a gRPC status whose code is Unavailable (14), DeadlineExceeded (4)
+// or ResourceExhausted (8)
+//@ extfunc google.golang.org/grpc/status.FromError
+//@   recorded
+//@   modifies nothing
+//@ extfunc google.golang.org/grpc/internal/status.(*Status).Code
+//@   recorded
+//@   modifies nothing
+//@ func RetryPolicyBuilder$1
+//@   let ok := retb(extfn("google.golang.org/grpc/status.FromError"), 1, 1)
+//@   let code := ret(extfn("google.golang.org/grpc/internal/status.(*Status).Code"), 1)
+//@   ensures [C18.grpc.retryable.no_error] err == nil ==> !result
+//@   ensures [C18.grpc.retryable.not_a_status] err != nil && !ok ==> !result
+//@   ensures [C18.grpc.retryable.codes] err != nil && ok ==> result == (code == 14 || code == 4 || code == 8)
+//@   havoc
+//@   modifies calls(extfn("google.golang.org/grpc/status.FromError")), calls(extfn("google.golang.org/grpc/internal/status.(*Status).Code"))
